@@ -351,3 +351,64 @@ Example ex_unit_print : print_unit false ex_unit =
    SLine [TName id_at; TName 170]; SLine [TName id_at; TName id_final];
    SLine [TName id_def; TName 122; TLPar; TRPar; TArrow; TName id_int; TColon; TEllipsis]].
 Proof. vm_compute. reflexivity. Qed.
+
+(* ---------------------------------------------------------------- fixed point and structural equality of units ---- *)
+From PV Require Import Print.DeclFix.
+
+(* signatures with body lines are re-printed as they were (removes simple_sig from print_sig_norm_partial) *)
+Theorem print_fsig_norm_partial : forall env scope c nm f,
+  wf_fsig env scope c f = true -> stable_fsig c nm f = true ->
+  print_fsig c (norm_fsig c nm f) = print_fsig c f.
+Proof. exact print_fsig_norm_lemma. Qed.
+Print Assumptions print_fsig_norm_partial.
+
+(* [stable_unit]: every type stable (as in print_norm_partial), signatures stable_sig, explicit decorators free of the
+   names the reader interprets and without repetitions, kinds consistent with __new__/__init_subclass__, no base
+   `nothing`, no property method that the reader turns into a constant, and a property that stays a method only on
+   the fixed tree (and not @final).  The alias `x = None` is excluded by wf_unit already. *)
+Theorem print_unit_fixed_point_partial : forall fixed u, wf_unit fixed u = true -> stable_unit fixed u = true ->
+  print_unit fixed (norm_unit fixed u) = print_unit fixed u.
+Proof. exact print_unit_fixed_point_lemma. Qed.
+Print Assumptions print_unit_fixed_point_partial.
+
+(* the second generation is read back as the first; with fixed = true this covers properties that stay methods
+   (w_unit_prop2_fixed), which unit_second_generation_before_fix_refuted shows to fail as written *)
+Theorem unit_second_generation : forall fixed u, wf_unit fixed u = true -> stable_unit fixed u = true ->
+  parse_unit (print_unit fixed (norm_unit fixed u)) = Some (norm_unit fixed u).
+Proof. exact unit_second_generation_lemma. Qed.
+Print Assumptions unit_second_generation.
+
+(* [eq_stable_unit]: additionally every type eq_stable, signatures eq_stable_sig, no property methods, class
+   decorators without repetitions, every class lists a base and is not called object, TypeVars in the printer's order *)
+Theorem unit_reparse_equal_partial : forall fixed u,
+  wf_unit fixed u = true -> stable_unit fixed u = true -> eq_stable_unit u = true ->
+  unit_eq (norm_unit fixed u) (unqual_unit u) = true.
+Proof. exact unit_reparse_equal_lemma. Qed.
+Print Assumptions unit_reparse_equal_partial.
+
+(* the structural-equality statement without eq_stable_unit is REFUTED: a class without bases is re-read with the base
+   object, TypeVars come back in the printer's order *)
+Definition w_unit_nobase : unit_ := mkU [] [] [] [mkCls 110 [] [] [] None [] [] []] [].
+Theorem unit_reparse_equal_refuted : forall fixed, exists u,
+  wf_unit fixed u = true /\ stable_unit fixed u = true /\ unit_eq (norm_unit fixed u) (unqual_unit u) = false.
+Proof. intros fixed. exists w_unit_nobase. destruct fixed; vm_compute; repeat split; reflexivity. Qed.
+Print Assumptions unit_reparse_equal_refuted.
+
+(* ---- non-vacuity: TypeVars with constraints and bound, alias, constant, a generic class with metaclass, decorator,
+   slots, nested class, class constant, an overloaded abstract method with a mutated parameter and a raise line,
+   __new__, and a final decorated module function meet all three hypotheses, in both variants ---- *)
+Definition ex_unit_stable : unit_ :=
+  mkU [mkTP 100 101 [Named (NP id_int); Named (NP id_str)] None; mkTP 102 103 [] (Some (Named (NP id_int)))]
+      [(131%N, Generic (NP 64) [Named (NP id_int)])]
+      [mkK 132 (Union [Named (NP id_int); Named (NP id_NoneType)]) true]
+      [mkCls 110 [Generic (NT 49) [TParam 100]] [(id_metaclass, Named (NP 111))] [id_final] (Some [160%N])
+             [mkCls 112 [Named (NP 64)] [] [] None [] [] []]
+             [mkK 133 (Named (NP id_int)) false]
+             [mkFn 121 [ex_fsig; ex_fsig] KMethod true false false [];
+              mkFn id_new [mkF (mkSig [mkParam id_cls AnyT Regular false None] None None AnyT) []] KStatic false false false []]]
+      [mkFn 122 [mkF (mkSig [] None None (Named (NP id_int))) []] KMethod false false true [170%N]].
+Example ex_unit_stable_ok : forall fixed,
+  wf_unit fixed ex_unit_stable = true /\ stable_unit fixed ex_unit_stable = true /\ eq_stable_unit ex_unit_stable = true /\
+  print_unit fixed (norm_unit fixed ex_unit_stable) = print_unit fixed ex_unit_stable /\
+  unit_eq (norm_unit fixed ex_unit_stable) (unqual_unit ex_unit_stable) = true.
+Proof. intros []; vm_compute; repeat split; reflexivity. Qed.
